@@ -275,6 +275,8 @@ func runNestedProgram(e *nestEnv, nOps int) {
 			e.opReopen()
 		case r < 100 && e.step%3 == 0:
 			e.opBoundaryWalk()
+		case r < 100 && e.step%3 == 1:
+			e.opSetType()
 		default:
 			e.opReadBack()
 		}
@@ -923,6 +925,34 @@ func (e *nestEnv) opBoundaryWalk() {
 		e.opReadBack()
 		e.verifyRoot(fmt.Sprintf("after walking container %d across the inline limit", c.h))
 	}
+}
+
+// opSetType changes the type info of a container through its handle (C10: for an inlined child the
+// type lives in the parent's slab, so the parent must be rewritten; C07: read back after reload).
+func (e *nestEnv) opSetType() {
+	n := e.pickContainer(func(x *node) bool { return e.attached(x) })
+	if n == nil {
+		return
+	}
+	ty := uint64(43 + e.rng.Intn(3))
+	if e.rng.Intn(4) == 0 {
+		ty = uint64(60 + e.rng.Intn(30))
+	}
+	e.w.L("OP sty h=%d ty=%d", n.h, ty)
+	var err error
+	if n.kind == 'a' {
+		err = n.arr.SetType(hx.TI(ty))
+	} else {
+		err = n.mp.SetType(hx.TI(ty))
+	}
+	e.w.L("OBS %s", obsErr(err))
+	e.emitEffects()
+	if err != nil {
+		e.violation("C10", fmt.Sprintf("SetType on container %d failed: %v", n.h, err))
+		return
+	}
+	e.st.Hit("set-type")
+	n.ty = ty
 }
 
 // opPop empties a container through its own handle with PopIterate - the outermost container, a
